@@ -152,6 +152,15 @@ class SessionModel:
             return ("value", 1, "")
         if op == "forvarfail":
             return ("error", "ERROR", "")
+        if op == "forvarhdr":
+            # the expression a loop runs over assigns to the variable the
+            # loop then borrows: the assignment is made before the loop (or
+            # its failure) and stays
+            n = f"v{cmd[1]}"
+            if n not in self.vars:
+                return ("error", "ERROR", "")
+            self.vars[n] = cmd[2]
+            return ("error", "ERROR", "") if cmd[3] else ("value", 2, "")
         if op in ("assignexit", "defexit"):
             # an exit statement on the right-hand side: the call fails (no
             # loop around it) and binds nothing
@@ -242,6 +251,11 @@ def source(cmd, who=0):
     if op == "forvarfail":
         k = cmd[1]
         return f"for v{k} in [7, 8] do 1 / 0 end"
+    if op == "forvarhdr":
+        k = cmd[1]
+        first = "1 / 0" if cmd[3] else "1"
+        return (f"for v{k} in (do v{k} = {cmd[2]}; [{first}, 2] end) "
+                f"do v{k} end")
     if op == "assignexit":
         k = cmd[1]
         return f"def v{k} = 3; v{k} = do {cmd[2]} end" if cmd[3] else \
@@ -373,11 +387,11 @@ def prop(case):
 # --------------------------------------------------------------------- parts
 
 CORE = [("def", 1, 5), ("read", 1), ("partial", 1, 7, 2), ("syntax",),
-        ("forvar", 1), ("defexit", 1, "break"),
+        ("forvar", 1), ("defexit", 1, "break"), ("forvarhdr", 1, 8, True),
         ("require", "good"), ("require", "broken"), ("require", "cycle"),
         ("require", "missing")]
 FAILING = {"partial", "syntax", "loop", "forvarfail", "assignexit",
-           "defexit"}
+           "defexit", "forvarhdr"}
 
 
 def nontrivial(history):
@@ -387,7 +401,7 @@ def nontrivial(history):
         whos.add(who)
         key = None
         if cmd[0] in ("def", "assign", "read", "call", "partial", "forvar",
-                      "forvarfail", "assignexit", "defexit"):
+                      "forvarfail", "assignexit", "defexit", "forvarhdr"):
             key = ("v", cmd[1])
         elif cmd[0] in ("loop", "readlist"):
             key = ("w", cmd[1])
@@ -455,12 +469,15 @@ def gen_cmd(ch):
     k = ch.weighted([(3, "def"), (2, "assign"), (3, "read"), (1, "deffn"),
                      (2, "call"), (2, "partial"), (1, "syntax"), (2, "loop"),
                      (1, "readlist"), (6, "require"), (2, "forvar"),
-                     (1, "forvarfail"), (1, "assignexit"), (1, "defexit")])
+                     (1, "forvarfail"), (1, "assignexit"), (1, "defexit"),
+                     (2, "forvarhdr")])
     if k in ("def", "assign"):
         return (k, ch.int(1, 3), ch.int(0, 50))
     if k in ("read", "deffn", "call", "loop", "readlist", "forvar",
              "forvarfail"):
         return (k, ch.int(1, 3))
+    if k == "forvarhdr":
+        return (k, ch.int(1, 3), ch.int(60, 90), ch.bool())
     if k == "assignexit":
         return (k, ch.int(1, 3), ch.choice(["break", "continue"]), False)
     if k == "defexit":
@@ -510,6 +527,10 @@ RES_STATE = [
     "def n0 = NULL", "for i in [1, 2] do q0 = i end",
     "'doc n1' def n1 = NULL", "'doc b1' def b1 = TRUE", "def g1 = g0",
     "def alias_sorted = sorted; 1", "def [f2, f3] = [f0, g0]; 1",
+    "'doc K1' def class K1 do def m = f0; def l = q1; def g = g0 end; 1",
+    # the header of a loop changes the variable the loop then borrows
+    "for q0 in (do q0 = 11; [1, 2] end) do 1 end",
+    "def nb() do q0 = q0 + 1; [q0] end; for q0 in nb() do 1 end",
 ]
 # command index -> (name, doc string) for the definitions that carry one
 RES_DOCS = {1: ("q1", "doc q1"), 2: ("f0", "doc f0"), 12: ("f0", "other doc"),
@@ -532,6 +553,9 @@ RES_FAIL = [
     "(fn(a) a)()", "'doc z' def z6 = 1 / 0",
     "if undefined_zz then def z7 = 1", "while undefined_zz do def z8 = 1 end",
     "do error 'a' catch 'b' 1 end", "do 1 / 0 finally 2 end",
+    "'doc z' def class Z1 do def m = f0; def l = q1; def n = 1 / 0 end",
+    "def class Z2 do def m = g0; def n = undefined_zz end",
+    "[q0, zz_undefined] = [21, 22]", "[t0, q0, zz_undefined] = <<1, 2, 3>>",
 ]
 
 
